@@ -235,6 +235,8 @@ def make_plan(seed: int, tier: str, index: int) -> dict[str, Any]:
                                  ["nps", "nps", "getitem", "getitem2", "ts_at", "prop", "render"])
                     op["on"] = "other"
                     ops[i] = op
+    if f.random() < 0.25:
+        plan["dropped_partner"] = True
     if f.random() < 0.2:
         # crash points inside read-only operations: an asynchronous exception cuts a read short;
         # whatever the read had started to cache must not become the chart's value
@@ -481,7 +483,8 @@ def execute(plan: dict[str, Any]) -> dict[str, Any]:
         if state["halt"]:
             return
         state["halt"] = True
-        opk = op["op"] if op else ("final" if extra in ("cold-final", "other-chart-final") else "initial")
+        opk = op["op"] if op else ("final" if extra in ("cold-final", "other-chart-final",
+                                                         "fresh-twin-after-dropped-partner") else "initial")
         absent = "absent" if (op and _absent_flag(op, present)) else "present"
         violations.append({"sig": f"C19/{inv}/{opk}/{absent}/{extra}", "detail": detail})
 
@@ -635,6 +638,28 @@ def execute(plan: dict[str, Any]) -> dict[str, Any]:
         if not same:
             vio("observation-changed", None, "other-chart-final",
                 "after all read-only operations the second chart differs from its untouched twin")
+    if plan.get("dropped_partner") and harness_error is None and not state["halt"]:
+        # (6) comparing the chart with ANOTHER chart is a read-only use too: after that chart is
+        # dropped, a freshly parsed twin (whatever address it receives - swept over allocator
+        # shifts) still equals the chart
+        partner_text = other_text or text.replace("[Events]\n{", "[Events]\n{\n  0 = E \"partner\"", 1)
+        for j in (0, 1, 2, 3, 4, 5, 6, 8, 11, 16):
+            try:
+                x = world.parse_text(partner_text)
+                _ = (chart == x, x == chart, chart != x)
+                del x
+                shift = world.heap_shift(j)
+                t2 = world.parse_text(text, plan.get("select"))
+                ok = bool(chart == t2) and bool(t2 == chart) and not (chart != t2)
+                del shift, t2
+            except BaseException:  # noqa: BLE001
+                break
+            if not ok:
+                vio("twin-unequal", None, "fresh-twin-after-dropped-partner",
+                    f"the chart was compared with another chart, that chart was dropped, and a freshly "
+                    f"parsed twin no longer equals the chart (allocator shift {j})")
+                break
+        probes["dropped_partner_sweeps"] = 1
     probes["cold_runs"] = 1 if cold else 0
     probes["runs_with_second_chart"] = 1 if other is not None else 0
     probes["runs_with_selection"] = 1 if plan.get("select") is not None else 0
